@@ -415,6 +415,8 @@ class ExprMixin:
         op = e['opcode']
         L, R = e['inner']
         if op == '=':
+            if self.ct(L).kind == 'struct':
+                return self.struct_assign(L, R, e)
             v = self.rval(R)
             lv = self.lval(L)
             if lv[0] in ('struct', 'arrobj'):
@@ -448,6 +450,40 @@ class ExprMixin:
         r = cast_int(r, rt.signed, lt.bits)
         self.store(lv, r, L)
         return r
+
+    def struct_assign(self, L, R, e):
+        """dst = src for two objects of the same struct type: field by field (arrays as whole contents)"""
+        src = R
+        while src.get('kind') in ('ParenExpr',) or (src.get('kind') == 'ImplicitCastExpr' and src.get('castKind') in ('LValueToRValue', 'NoOp')):
+            src = src['inner'][0]
+        lvd = self.lval(L)
+        lvs = self.lval(src)
+        if lvd[0] != 'struct' or lvs[0] != 'struct':
+            raise Unsupported('struct assignment form')
+        d, s = lvd[1], lvs[1]
+        if d.ct.name != s.ct.name and [f for f, _ in d.ct.fields] != [f for f, _ in s.ct.fields]:
+            raise Unsupported('struct assignment between different types')
+        self.alive_check(d, self.text(L), L)
+        self.alive_check(s, self.text(src), src)
+        if d.const:
+            raise Unsupported('assignment to const struct')
+        self.copy_struct(d, s)
+        self.st.version += 1
+        return None
+
+    def copy_struct(self, d, s):
+        for name, fd in d.fields.items():
+            fs = s.fields[name]
+            if fd.kind == 'struct':
+                self.copy_struct(fd, fs)
+                continue
+            v = self.st.mem.get(fs.id)
+            if v is None and fd.kind == 'cell' and fd.ct.kind == 'int':
+                v = self.fresh_bv('uninit', fd.ct.bits)
+                self.st.mem[fs.id] = v
+            self.st.mem[fd.id] = v
+            self.st.lit.pop(fd.id, None)
+            self.st.written.add(fd.id)
 
     def guarded(self, guard, fn):
         """evaluate fn() under an extra path-condition conjunct; the evaluation must be free of side effects"""
